@@ -30,6 +30,8 @@ def run(ctx):
         "PointPair.endpoint_projective_coords", "Polygon.in_standard_chart",
         "None.affine_coords", "None.projective_coords"})
     ctx.do(SI.rule_eig1, only={"Transformation.eigenvector", "Transformation.diagonalize"})
+    ctx.do(SI.rule_svd1)
+    ctx.do(SH.rule_hom1, parts=("proj", "proj-cx"), min_proved=6)
     ctx.do(u1, ENTRIES, min_functions=15)
     ctx.r.assume("affine maps, translations, intersections and eigenvectors "
                  "are numerical clauses and not decided")
